@@ -17,6 +17,14 @@ Top-level clauses (from the property statement; reference definitions: DESIGN.md
 Rows are located structurally (border lines; position in the body computed from the record list, the
 break-by values and the limits), never by their text.  Supporting clauses (b.diag only): break line
 is blank, header / title / footer text.
+
+The lines of a table are produced lazily (iterating table.ch_text(...) yields them one by one), so
+besides printing each table on its own the driver prints several tables *interleaved*: the lines
+of two or three tables (different tables, or the same table twice) are pulled in turn - side by side
+like zip(t1.ch_text(), t2.ch_text()), a table printed completely while the generator of another one
+is half consumed, or a seeded random order of pulls.  Every table is a value of its own, so the
+oracle of each table is the very same per-table oracle (check_lines), applied to the lines obtained
+that way.
 """
 import itertools
 import multiprocessing
@@ -31,7 +39,10 @@ CLAUSES = ('rectangular', 'separators_under_plus', 'width_bounds', 'cell_content
 REACH = ['truncation', 'break-line', 'skipped-records', 'width-0', 'min=max',
          'limits+break-lines', 'enum-val', 'enum-name', 'enum-full', 'header-overlong',
          'footer-overlong', 'border-chars-in-value', 'announcement-readable',
-         'announcement-truncated', 'records-0']
+         'announcement-truncated', 'records-0',
+         'interleaved-zip', 'interleaved-half-consumed', 'interleaved-random-order',
+         'interleaved-same-table', 'interleaved-three-tables', 'interleaved-service-lines']
+MAX_LINES = 5000         # step budget of one lazily generated table
 
 
 # ------------------------------------------------------------------------------------------------
@@ -43,6 +54,8 @@ class Res:
         self.diags = []
         self.hits = set()
         self.nontrivial = False
+        self.service_rows = []   # indices of the printed lines that are break / skipped-records lines
+        self.n_skipped = 0       # number of records the expectation hides
 
     def fail(self, clause, ksuf, text):
         self.fails.append((clause, ksuf, text))
@@ -54,10 +67,8 @@ def _short(s, n=60):
 
 
 def check_table(desc):
-    """evaluate every clause on the table of one description -> Res"""
+    """evaluate every clause on the table of one description, printed on its own -> Res"""
     res = Res()
-    cols, limits = T.initial_model(desc)
-    records = desc['records']
     try:
         with T.guarded():
             table = T.build_table(desc)
@@ -72,7 +83,19 @@ def check_table(desc):
     if not isinstance(text, str):
         res.fail('rectangular', 'render-not-text', f"rendering is {type(text).__name__}, not text")
         return res
-    L = text.split('\n')
+    return check_lines(desc, text.split('\n'), res)
+
+
+def check_lines(desc, L, res=None):
+    """the per-table oracle: evaluate every clause on the printed lines `L` (plain text) of the table
+    of `desc`, however the lines were obtained -> Res"""
+    if res is None:
+        res = Res()
+    cols, limits = T.initial_model(desc)
+    records = desc['records']
+    if not L:
+        res.fail('rectangular', 'render-not-text', "the table has no lines at all")
+        return res
 
     header, footer = desc.get('header'), desc.get('footer')
     H = 1 if header else 0
@@ -85,6 +108,7 @@ def check_table(desc):
     tl = T.table_lines_of(records, cols)
     body, lim_apply = T.apply_limits(tl, limits)
     shown_recs = [x for x in body if isinstance(x, int)]
+    res.n_skipped = len(records) - len(shown_recs)
 
     # ---- reach / non-triviality, measured on the expectation
     if not records:
@@ -178,10 +202,12 @@ def check_table(desc):
         line = L[li]
         if what == BREAK:
             kinds[li] = 'break'
+            res.service_rows.append(li)
             if line != '|' + ' ' * (tw - 2) + '|':
                 res.diags.append(f"[supporting] break line is not blank: {_short(line)}")
         elif what == SKIP:
             kinds[li] = 'skipped'
+            res.service_rows.append(li)
             want = len(records) - len(shown_recs)
             # a number followed by something else than a digit or a dot is completely visible (the line is
             # truncated to '...' at small widths); the announcement is right if such a number == want
@@ -278,6 +304,199 @@ def _separators(res, L, rows, plus):
             res.fail('separators_under_plus', 'row',
                      f"line {li} {_short(line)} has no '|' at position {bad[0]} of a border '+'")
             return
+
+
+# ------------------------------------------------------------------------------------------------
+# several tables printed interleaved, line by line
+
+def _resolve(entries):
+    """entries of an interleaved case -> (description per entry, index of the entry whose table object
+    the entry uses)"""
+    descs, obj = [], []
+    for i, e in enumerate(entries):
+        if 'same_as' in e:
+            j = obj[e['same_as']]
+            descs.append(descs[j])
+            obj.append(j)
+        else:
+            descs.append(e)
+            obj.append(i)
+    return descs, obj
+
+
+def _plain(line):
+    txt = line.plain_text()
+    if not isinstance(txt, str):
+        raise TypeError(f"plain_text() of a generated line is {type(txt).__name__}")
+    return txt
+
+
+def pull_lines(tables, schedule):
+    """pull the lines of the tables in the order the schedule says (public way: iterating
+    table.ch_text(no_color=True) yields the lines; 'half': the other tables are printed completely with
+    ch_text(no_color=True).plain_text()).
+    -> (lines per table, time of the first pull per table, time of the pull of each line per table)"""
+    n = len(tables)
+    its = [iter(t.ch_text(no_color=True)) for t in tables]
+    lines = [[] for _ in range(n)]
+    when = [[] for _ in range(n)]
+    first = [None] * n
+    clock = [0]
+
+    def pull(i):
+        """one line of table i; False when its generator is exhausted"""
+        clock[0] += 1
+        if first[i] is None:
+            first[i] = clock[0]
+        try:
+            line = next(its[i])
+        except StopIteration:
+            return False
+        lines[i].append(_plain(line))
+        when[i].append(clock[0])
+        if len(lines[i]) > MAX_LINES:
+            raise T.Budget()
+        return True
+
+    live = list(range(n))
+    if schedule == 'zip':
+        while live:
+            live = [i for i in live if pull(i)]
+    elif schedule[0] == 'half':
+        for _ in range(schedule[1]):
+            if not pull(0):
+                live = live[1:]
+                break
+        for i in range(1, n):
+            clock[0] += 1
+            first[i] = clock[0]
+            text = T.render(tables[i])
+            if not isinstance(text, str):
+                raise TypeError(f"rendering is {type(text).__name__}, not text")
+            lines[i] = text.split('\n')
+            when[i] = [clock[0]] * len(lines[i])
+        while live and live[0] == 0 and pull(0):
+            pass
+    elif schedule[0] == 'seed':
+        rnd = random.Random(f"C12:schedule:{schedule[1]}")
+        while live:
+            i = rnd.choice(live)
+            if not pull(i):
+                live.remove(i)
+    else:
+        raise ValueError(f"unknown schedule {schedule!r}")
+    return lines, first, when
+
+
+_solo_cache = {}
+
+
+def _solo(desc):
+    key = id(desc)
+    hit = _solo_cache.get(key)
+    if hit is None or hit[0] is not desc:
+        if len(_solo_cache) > 2000:
+            _solo_cache.clear()
+        hit = _solo_cache[key] = (desc, check_table(desc))
+    return hit[1]
+
+
+def check_interleaved(case):
+    """-> (nontrivial, hits, [(clause, key suffix, text, case to record)], diags)
+    Every table is first printed on its own (a fresh object); what fails there is a failure of that
+    single table (recorded with the single description).  What fails only for the lines obtained by
+    interleaved generation is recorded with the whole case and '+interleaved' in the key."""
+    entries = case['tables']
+    schedule = case['schedule']
+    descs, obj = _resolve(entries)
+    n = len(descs)
+    hits, fails, diags = set(), [], []
+    solo = []
+    for i in range(n):
+        r = _solo(descs[i])
+        solo.append(r)
+        if obj[i] == i:
+            hits |= r.hits
+            diags.extend(r.diags)
+            fails.extend((c, k, t, descs[i]) for c, k, t in r.fails)
+    # tables that cannot even be printed on their own say nothing about interleaving
+    if any(k.startswith('render-') for r in solo for _c, k, _t in r.fails):
+        return False, hits, fails, diags
+
+    try:
+        with T.guarded():
+            tables = []
+            for i in range(n):
+                tables.append(tables[obj[i]] if obj[i] != i else T.build_table(descs[i]))
+            lines, first, when = pull_lines(tables, schedule)
+    except T.Budget:
+        fails.append(('rectangular', 'render-budget+interleaved',
+                      f"generating the lines of {n} tables in turn did not finish within 10 s / "
+                      f"{MAX_LINES} lines", case))
+        return False, hits, fails, diags
+    except Exception as e:      # noqa
+        fails.append(('rectangular', 'render-raises-' + type(e).__name__ + '+interleaved',
+                      f"generating the lines of {n} tables in turn raises {type(e).__name__}: "
+                      f"{_short(str(e), 120)}", case))
+        return False, hits, fails, diags
+
+    results = []
+    for i in range(n):
+        r = check_lines(descs[i], lines[i])
+        results.append(r)
+        alone = {(c, k) for c, k, _t in solo[i].fails}
+        for c, k, t in r.fails:
+            if (c, k) not in alone:
+                fails.append((c, k + '+interleaved',
+                              f"table #{i} of {n} tables whose lines are generated in turn "
+                              f"({_sched_text(schedule)}): {t}", case))
+        for dtxt in r.diags:
+            if dtxt not in solo[i].diags:
+                diags.append("[interleaved] " + dtxt)
+        hits |= r.hits
+
+    # ---- reach / non-triviality
+    last = [max([first[i] or 0] + when[i]) for i in range(n)]
+    overlap = any(first[j] is not None and first[i] is not None and first[i] < first[j] <= last[i]
+                  for i in range(n) for j in range(n) if i != j)
+    if overlap:
+        if schedule == 'zip':
+            hits.add('interleaved-zip')
+        elif schedule[0] == 'half':
+            hits.add('interleaved-half-consumed')
+        else:
+            hits.add('interleaved-random-order')
+        if any(obj[i] != i for i in range(n)):
+            hits.add('interleaved-same-table')
+        if len(set(obj)) >= 3:
+            hits.add('interleaved-three-tables')
+    hard = False
+    for a in range(n):
+        for bb in range(n):
+            if obj[a] == obj[bb] or not (results[a].service_rows and results[bb].service_rows):
+                continue
+            if not (solo[a].service_rows and solo[bb].service_rows):
+                continue
+            differ = (len(lines[a][0]) != len(lines[bb][0])
+                      or results[a].n_skipped != results[bb].n_skipped)
+            # table bb is started after table a and before table a yields one of its service lines
+            late = any(li < len(when[a]) and first[a] < first[bb] <= when[a][li]
+                       for li in results[a].service_rows)
+            if differ and late:
+                hard = True
+    if hard:
+        hits.add('interleaved-service-lines')
+    nontrivial = overlap and any(r.nontrivial for r in results)
+    return nontrivial, hits, fails, diags
+
+
+def _sched_text(schedule):
+    if schedule == 'zip':
+        return "side by side, one line of each table in turn"
+    if schedule[0] == 'half':
+        return (f"{schedule[1]} lines of table #0, then the other tables printed completely, then the "
+                f"rest of table #0")
+    return f"seeded random order of pulls, seed {schedule[1]}"
 
 
 # ------------------------------------------------------------------------------------------------
@@ -463,19 +682,88 @@ def random_desc(rnd, thorough):
     return desc
 
 
+def _acc_desc(n, bits, lim, via, wide):
+    g = 0
+    recs = []
+    for i in range(n):
+        if i > 0 and bits[i - 1]:
+            g += 1
+        recs.append([(100 if wide else 1) + i, f"{'group-' if wide else 'g'}{g}"])
+    d = {
+        'family': 'accounting', 'mode': 'fields',
+        'fields': [{'name': 'id'}, {'name': 'grp'}],
+        'records': recs,
+        'columns': [{'field': 'id'}, {'field': 'grp', 'brk': True}],
+        'limits': lim, 'limits_via': via,
+    }
+    if wide:
+        d['columns'].append({'field': 'id', 'w': [12, 14]})     # wide enough for a readable announcement
+    return d
+
+
+def family_interleaved(ns, limits_list):
+    """D: every ordered pair (narrow accounting table, wide accounting table with one column more) over
+    record counts `ns` x every pattern of break-by changes x limits, x the schedules zip / first table
+    half consumed after 1, 4, 6 lines / the wide table first"""
+    def side(wide):
+        out = []
+        for n in ns:
+            for bits in itertools.product([0, 1], repeat=max(0, n - 1)):
+                for lim in limits_list:
+                    out.append(_acc_desc(n, bits, lim, 'arg' if (wide and lim is not None) else 'fmt', wide))
+        return out
+    left, right = side(False), side(True)
+    for a in left:
+        for c in right:
+            for sch in ('zip', ['half', 1], ['half', 4], ['half', 6]):
+                yield {'family': 'interleaved', 'tables': [a, c], 'schedule': sch}
+            yield {'family': 'interleaved', 'tables': [c, a], 'schedule': 'zip'}
+            yield {'family': 'interleaved', 'tables': [c, a], 'schedule': ['half', 5]}
+
+
+def random_interleaved(rnd, thorough):
+    """E: two or three random tables (sometimes the same table twice) x a schedule"""
+    n = 3 if rnd.random() < 0.15 else 2
+    tables = []
+    for i in range(n):
+        if i > 0 and rnd.random() < 0.12:
+            j = rnd.randrange(i)
+            if 'same_as' in tables[j]:
+                j = tables[j]['same_as']
+            tables.append({'same_as': j})
+        else:
+            tables.append(random_desc(rnd, thorough))
+    r = rnd.random()
+    if r < 0.4:
+        sch = 'zip'
+    elif r < 0.75:
+        sch = ['half', rnd.randint(1, 9)]
+    else:
+        sch = ['seed', rnd.randrange(1000)]
+    return {'family': 'interleaved', 'tables': tables, 'schedule': sch}
+
+
 def _work(args):
     """worker: descriptions of one chunk -> compact results"""
     kind, payload = args
     if kind == 'list':
         descs = payload
+    elif kind == 'seeded-interleaved':
+        seed, chunk, n, thorough = payload
+        rnd = random.Random(f"C12:interleaved:{seed}:{chunk}")
+        descs = [random_interleaved(rnd, thorough) for _ in range(n)]
     else:
         seed, chunk, n, thorough = payload
         rnd = random.Random(f"C12:{seed}:{chunk}")
         descs = [random_desc(rnd, thorough) for _ in range(n)]
     out = []
     for d in descs:
-        r = check_table(d)
-        out.append((d, r.nontrivial, sorted(r.hits), r.fails, r.diags))
+        if d.get('family') == 'interleaved':
+            nontrivial, hits, fails, diags = check_interleaved(d)
+            out.append((d, nontrivial, sorted(hits), fails, diags))
+        else:
+            r = check_table(d)
+            out.append((d, r.nontrivial, sorted(r.hits), [(c, k, t, d) for c, k, t in r.fails], r.diags))
     return out
 
 
@@ -492,8 +780,11 @@ def chunks(it, n):
 
 def sizes(tier):
     if tier == 'quick':
-        return {'max_n': 8, 'limits': LIMITS, 'random': 12000}
-    return {'max_n': 10, 'limits': LIMITS + LIMITS_MORE, 'random': 300000}
+        return {'max_n': 8, 'limits': LIMITS, 'random': 12000,
+                'il_ns': [2, 3, 4], 'il_limits': [None, [0, 0], [1, 0], [0, 1], [1, 1]],
+                'il_random': 4000}
+    return {'max_n': 10, 'limits': LIMITS + LIMITS_MORE, 'random': 300000,
+            'il_ns': [1, 2, 3, 4, 5], 'il_limits': LIMITS + [[2, 1]], 'il_random': 100000}
 
 
 def run(b):
@@ -504,9 +795,13 @@ def run(b):
         jobs.append(('list', ch))
     for ch in chunks(family_accounting(sz['max_n'], sz['limits']), 250):
         jobs.append(('list', ch))
+    for ch in chunks(family_interleaved(sz['il_ns'], sz['il_limits']), 250):
+        jobs.append(('list', ch))
     per = 250
     for k in range(sz['random'] // per):
         jobs.append(('seeded', (b.seed, k, per, thorough)))
+    for k in range(sz['il_random'] // per):
+        jobs.append(('seeded-interleaved', (b.seed, k, per, thorough)))
     ctx = multiprocessing.get_context('fork')
     with ctx.Pool(min(16, multiprocessing.cpu_count() or 1)) as pool:
         for out in pool.imap(_work, jobs, chunksize=1):
@@ -514,13 +809,16 @@ def run(b):
                 b.case(desc, nontrivial=nontrivial)
                 for h in hits:
                     b.hit(h)
-                for clause, ksuf, text in fails:
-                    b.fail(f"C12.{clause}", f"C12.{clause}:{ksuf}", text, desc)
+                for clause, ksuf, text, fcase in fails:
+                    b.fail(f"C12.{clause}", f"C12.{clause}:{ksuf}", text, fcase)
                 for dtxt in diags:
                     b.diag(dtxt)
     b.require_reach(REACH)
 
 
 def replay_case(case):
+    if case.get('family') == 'interleaved':
+        _nt, _hits, fails, diags = check_interleaved(case)
+        return (not fails), [f"{c}:{k}: {t}" for c, k, t, _case in fails] + diags
     r = check_table(case)
     return (not r.fails), [f"{c}:{k}: {t}" for c, k, t in r.fails] + r.diags
